@@ -41,6 +41,9 @@ fn r(rng: &mut Rng, s: &str) -> String {
 }
 
 const SEQ_OK: &[&str] = &[
+    "    {v} := {f3}(1, {red}, '0') + {f3}({c0}, {blue}, '1');\n",
+    "    {r} <= (1, {blue});\n",
+    "    {r} <= ({c0}, {green}); {pr}({q}, {f3}(2, {red}, '0'));\n",
     "    -- a line comment between statements\n",
     "    /* a block comment\n       over two lines */ {null}; -- trailing\n",
     "    {v} := {f}({red}) + {f}(2) + {c0};\n",
@@ -61,6 +64,8 @@ const SEQ_OK: &[&str] = &[
     "    {wait} {until} {clk} = '1' {for} 10 {ns};\n",
 ];
 const SEQ_BAD: &[&str] = &[
+    "    {v} := {f3}({red}, 1, '0');\n",
+    "    {r} <= ({blue}, 1);\n",
     "    {v} := {nope} + 1;\n",
     "    {v} := {red};\n",
     "    {s1} <= {r};\n",
@@ -103,6 +108,9 @@ const DECL_BAD: &[&str] = &[
     "  {function} {nobody}({x} : {integer}) {return} {integer};\n",
 ];
 const CONC_OK: &[&str] = &[
+    "  {u7} : {entity} {work}.{sub2} {generic} {map} (2, \"n\", {true}) {port} {map} ({so}, {s1}, {col}, {so2});\n",
+    "  {u8} : {sub2} {generic} {map} (3, \"m\", {false}) {port} {map} ({so}, {s2}, {col}, {open});\n",
+    "  {u9} : {entity} {work}.{sub2}({rtl}) {port} {map} ({so}, 16#A#, {red}, {so2});\n",
     "  {q} <= {s1} + {s2};\n",
     "  {u0} : {entity} {work}.{sub} {port} {map} ({a} => {clk}, {b} => {open});\n",
     "  {u1} : {entity} {work}.{sub}({rtl}) {generic} {map} ({w} => 2) {port} {map} ({clk}, {so});\n",
@@ -113,6 +121,9 @@ const CONC_OK: &[&str] = &[
     "  {with} {col} {select} {s2} <= 1 {when} {red}, 2 {when} {others};\n",
 ];
 const CONC_BAD: &[&str] = &[
+    "  {u10} : {entity} {work}.{sub2} {port} {map} ({s1}, {so}, {col}, {so2});\n",
+    "  {u11} : {sub2} {generic} {map} (\"n\", 2, {true}) {port} {map} ({so}, {s1}, {col}, {so2});\n",
+    "  {u12} : {entity} {work}.{sub2} {port} {map} ({so}, {s1});\n",
     "  {u2} : {entity} {work}.{missing_ent};\n",
     "  {u3} : {entity} {work}.{sub} {port} {map} ({a} => {clk}, {zz} => {clk});\n",
     "  {u4} : {entity} {work}.{sub}({no_arch});\n",
@@ -151,12 +162,18 @@ pub fn gen_project(rng: &mut Rng) -> Files {
     pkg.push_str("  {signal} \\Ext\\ : {integer};\n");
     pkg.push_str("  {function} {f}({x} : {integer}) {return} {integer};\n  {function} {f}({x} : {color_t}) {return} {integer};\n");
     pkg.push_str("  {procedure} {pr}({signal} {s} : {out} {integer}; {v} : {in} {integer});\n");
+    if rng.below(2) == 0 {
+        pkg.push_str("  {function} {f3}({x} : {integer}; {c} : {color_t}; {bb} : {bit}) {return} {integer};\n");
+    } else {
+        pkg.push_str("  {function} {f3}({x} : {integer};\n    {c} : {color_t};\n    {bb} : {bit}) {return} {integer};\n");
+    }
     if rng.below(100) < pbad {
         pkg.push_str(DECL_BAD[rng.below(7)]);
     }
     pkg.push_str("{end} {package};\n\n{package} {body} {pkg} {is}\n");
     pkg.push_str("  {function} {f}({x} : {integer}) {return} {integer} {is}\n  {begin}\n    {return} {x} + 1;\n  {end} {function};\n");
     pkg.push_str("  {function} {f}({x} : {color_t}) {return} {integer} {is}\n  {begin}\n    {return} {color_t}'{pos}({x});\n  {end} {function};\n");
+    pkg.push_str("  {function} {f3}({x} : {integer}; {c} : {color_t}; {bb} : {bit}) {return} {integer} {is}\n  {begin}\n    {return} {x} + {color_t}'{pos}({c});\n  {end} {function};\n");
     if rng.below(100) >= pbad / 2 {
         pkg.push_str("  {procedure} {pr}({signal} {s} : {out} {integer}; {v} : {in} {integer}) {is}\n  {begin}\n    {s} <= {v};\n  {end} {procedure};\n");
     }
@@ -170,6 +187,13 @@ pub fn gen_project(rng: &mut Rng) -> Files {
     if rng.below(100) < pbad {
         sub.push_str("\n{architecture} {rtl} {of} {sub} {is}\n{begin}\n{end} {architecture};\n");
     }
+    sub.push_str("\n{library} {ieee};\n{use} {ieee}.{std_logic_1164}.{all};\n{use} {work}.{pkg}.{all};\n");
+    if rng.below(2) == 0 {
+        sub.push_str("{entity} {sub2} {is}\n  {generic} ({gw} : {integer} := 1; {gname} : {string} := \"x\"; {gflag} : {boolean} := {false});\n  {port} ({pa} : {in} {bit}; {pi} : {in} {integer}; {pc} : {in} {color_t}; {po} : {out} {bit});\n{end} {entity};\n");
+    } else {
+        sub.push_str("{entity} {sub2} {is}\n  {generic} (\n    {gw} : {integer} := 1;\n    {gname} : {string} := \"x\";\n    {gflag} : {boolean} := {false});\n  {port} (\n    {pa} : {in} {bit};\n    {pi} : {in} {integer};\n    {pc} : {in} {color_t};\n    {po} : {out} {bit});\n{end} {entity};\n");
+    }
+    sub.push_str("\n{architecture} {rtl} {of} {sub2} {is}\n{begin}\n  {po} <= {pa} {when} {pi} > {gw} {and} {pc} = {red} {and} {gflag} {else} '0';\n{end} {architecture};\n");
     main.push(("sub.vhd".to_string(), r(rng, &sub)));
 
     // ---- main entity
@@ -180,7 +204,12 @@ pub fn gen_project(rng: &mut Rng) -> Files {
         ent.push_str("; {unused_p} : {in} {bit}");
     }
     ent.push_str(");\n{end} {entity};\n\n{architecture} {a} {of} {ent} {is}\n");
-    ent.push_str("  {signal} {s1}, {s2} : {integer};\n  {signal} {r} : {rec_t};\n  {signal} {col} : {color_t};\n  {signal} {so} : {bit};\n  {signal} {bvs} : {bit_vector}(7 {downto} 0);\n");
+    ent.push_str("  {signal} {s1}, {s2} : {integer};\n  {signal} {r} : {rec_t};\n  {signal} {col} : {color_t};\n  {signal} {so}, {so2} : {bit};\n  {signal} {bvs} : {bit_vector}(7 {downto} 0);\n");
+    if rng.below(2) == 0 {
+        ent.push_str("  {component} {sub2} {is}\n    {generic} ({gw} : {integer} := 1; {gname} : {string} := \"x\"; {gflag} : {boolean} := {false});\n    {port} ({pa} : {in} {bit}; {pi} : {in} {integer}; {pc} : {in} {color_t}; {po} : {out} {bit});\n  {end} {component};\n");
+    } else {
+        ent.push_str("  {component} {sub2} {is}\n    {generic} ({gw} : {integer} := 1;\n      {gname} : {string} := \"x\";\n      {gflag} : {boolean} := {false});\n    {port} ({pa} : {in} {bit};\n      {pi} : {in} {integer};\n      {pc} : {in} {color_t};\n      {po} : {out} {bit});\n  {end} {component};\n");
+    }
     for _ in 0..rng.below(4) {
         ent.push_str(pick(rng, DECL_OK, DECL_BAD, pbad));
     }
